@@ -512,65 +512,70 @@ def Walker.buildStack (ps : PageSet Node) (w : Walker Node) (position : Pos) : W
 
 /-! ## `replace_terminal`, `place_node` -/
 
-/-- the visitor closure of `replace_terminal` -/
-def Walker.visit (ps : PageSet Node) (startDepth : Nat) (w : Walker Node) (c : WriteNode Node VH) : WR (Walker Node) :=
-  let node := c.node H
-  let up := c.up
-  let down := c.down
-  -- zero the sibling slot of a fresh internal node
-  let w1 : WR (Walker Node) :=
-    match c with
-    | .internal l r _ =>
-      match w.position.peekLastBit with
-      | none => .panic "replace_terminal: peek_last_bit"
-      | some bit =>
-        let zero := if bit then decide (H.kind l = .terminator) else decide (H.kind r = .terminator)
-        if zero then w.setSibling H.term else .ok w
-    | _ => .ok w
-  match w1 with
-  | .panic s => .panic s
-  | .err e => .err e
-  | .ok w =>
-    -- avoid popping pages off the stack if we are jumping to a sibling
-    let w2 : WR (Walker Node × List Bool) :=
-      match up, down with
-      | true, d0 :: drest =>
-        match w.position.peekLastBit with
-        | none => .panic "replace_terminal: peek_last_bit"
-        | some bit =>
-          if d0 = !bit then
-            match w.position.sibling with
-            | none => .panic "replace_terminal: position.sibling"
-            | some p => .ok ({ w with position := p }, drest)
-          else
-            match w.up H with
-            | .panic s => .panic s
-            | .err e => .err e
-            | .ok w => .ok (w, d0 :: drest)
-      | true, [] =>
+/-- "we assume pages are not necessarily zeroed. therefore, there might be some garbage in the sibling slot we need to
+clear out." -/
+def Walker.zeroSibling (w : Walker Node) (c : WriteNode Node VH) : WR (Walker Node) :=
+  match c with
+  | .internal l r _ =>
+    match w.position.peekLastBit with
+    | none => .panic "replace_terminal: peek_last_bit"
+    | some bit =>
+      let zero := if bit then decide (H.kind l = .terminator) else decide (H.kind r = .terminator)
+      if zero then w.setSibling H.term else .ok w
+  | _ => .ok w
+
+/-- "avoid popping pages off the stack if we are jumping to a sibling." -/
+def Walker.visitMove (w : Walker Node) (up : Bool) (down : List Bool) : WR (Walker Node × List Bool) :=
+  match up, down with
+  | true, d0 :: drest =>
+    match w.position.peekLastBit with
+    | none => .panic "replace_terminal: peek_last_bit"
+    | some bit =>
+      if d0 = !bit then
+        match w.position.sibling with
+        | none => .panic "replace_terminal: position.sibling"
+        | some p => .ok ({ w with position := p }, drest)
+      else
         match w.up H with
         | .panic s => .panic s
         | .err e => .err e
-        | .ok w => .ok (w, [])
-      | false, d => .ok (w, d)
-    match w2 with
+        | .ok w => .ok (w, d0 :: drest)
+  | true, [] =>
+    match w.up H with
+    | .panic s => .panic s
+    | .err e => .err e
+    | .ok w => .ok (w, [])
+  | false, d => .ok (w, d)
+
+/-- the descent: "first bit is only fresh if we are at the start position and the start is at the end of its page (or at
+the root). after that, definitely is." -/
+def Walker.descend (ps : PageSet Node) (startDepth : Nat) (w : Walker Node) (down : List Bool) : WR (Walker Node) :=
+  match decide (w.position.depth > startDepth), down with
+  | false, d0 :: drest =>
+    match w.down ps [d0] (decide (w.position.depthInPage = DEPTH) || w.position.isRoot) with
+    | .panic s => .panic s
+    | .err e => .err e
+    | .ok w => w.down ps drest true
+  | _, d => w.down ps d true
+
+/-- `if self.position.is_root() { self.root = node } else { self.set_node(node) }` -/
+def Walker.writeHere (w : Walker Node) (node : Node) : WR (Walker Node) :=
+  if w.position.isRoot then .ok { w with root := node } else w.setNode H node
+
+/-- the visitor closure of `replace_terminal` -/
+def Walker.visit (ps : PageSet Node) (startDepth : Nat) (w : Walker Node) (c : WriteNode Node VH) : WR (Walker Node) :=
+  match w.zeroSibling H c with
+  | .panic s => .panic s
+  | .err e => .err e
+  | .ok w =>
+    match w.visitMove H c.up c.down with
     | .panic s => .panic s
     | .err e => .err e
     | .ok (w, down) =>
-      let fresh := decide (w.position.depth > startDepth)
-      let w3 : WR (Walker Node) :=
-        match fresh, down with
-        | false, d0 :: drest =>
-          match w.down ps [d0] (w.position.depthInPage = DEPTH || w.position.isRoot) with
-          | .panic s => .panic s
-          | .err e => .err e
-          | .ok w => w.down ps drest true
-        | _, d => w.down ps d true
-      match w3 with
+      match w.descend ps startDepth down with
       | .panic s => .panic s
       | .err e => .err e
-      | .ok w =>
-        if w.position.isRoot then .ok { w with root := node } else w.setNode H node
+      | .ok w => w.writeHere H (c.node H)
 
 def Walker.visitAll (ps : PageSet Node) (startDepth : Nat) (w : Walker Node) :
     List (WriteNode Node VH) → WR (Walker Node)
